@@ -20,6 +20,9 @@ pub enum ScalarCase {
     SoftmaxRows(LeafSpec),
     /// `sum(0)` must be value- and shape-identical
     SumZero(LeafSpec),
+    /// the SAME array reshaped to a target with another element count, twice in a row (refused both times, nothing
+    /// else constructed in between), then to a valid target
+    ReshapeRefusedTwice { leaf: LeafSpec, bad: Vec<usize>, good: Vec<usize> },
 }
 
 impl CaseKind for ScalarCase {
@@ -27,6 +30,7 @@ impl CaseKind for ScalarCase {
     fn size(&self) -> usize {
         match self {
             ScalarCase::SumAll(l) | ScalarCase::SoftmaxRows(l) | ScalarCase::SumZero(l) => l.vals.len() + l.dims.len(),
+            ScalarCase::ReshapeRefusedTwice { leaf, .. } => leaf.vals.len() + leaf.dims.len() + 2,
         }
     }
     fn sample(&self) -> Value {
@@ -34,10 +38,33 @@ impl CaseKind for ScalarCase {
             ScalarCase::SumAll(l) => json!({"sum_all": l.dims}),
             ScalarCase::SoftmaxRows(l) => json!({"softmax_rows": l.dims}),
             ScalarCase::SumZero(l) => json!({"sum0": l.dims}),
+            ScalarCase::ReshapeRefusedTwice { leaf, bad, good } => json!({"reshape-refused-twice": leaf.dims, "bad": bad, "good": good}),
         }
     }
     fn run(&self) -> Outcome {
         match self {
+            ScalarCase::ReshapeRefusedTwice { leaf, bad, good } => {
+                let mut k = KeyHasher::new("reshape2");
+                k.us(&leaf.dims).us(bad).us(good);
+                let classes = vec!["op:reshape".to_string(), "expect:refuse-twice".to_string()];
+                let a = arr(&leaf.dims, &leaf.vals);
+                let a = if leaf.tracked { a.tracked() } else { a };
+                for attempt in 1..=2 {
+                    if let Ok(r) = guarded(|| a.reshape(bad.clone())) {
+                        return Outcome::fail("not-refused", format!("not-refused:reshape:attempt-{}", attempt), format!("reshape of dims {:?} ({} values) to {:?} must be refused (attempt {} on the same array) but returned dims {:?} with {} values", leaf.dims, leaf.vals.len(), bad, attempt, r.dimensions(), r.values().len()), k.finish(), classes);
+                    }
+                }
+                match guarded(|| a.reshape(good.clone())) {
+                    Err(p) => Outcome::fail("unexpected-panic", "unexpected-panic:reshape:after-refusals".into(), format!("reshape of dims {:?} to {:?} panicked after two refused reshapes: {}", leaf.dims, good, p), k.finish(), classes),
+                    Ok(r) => {
+                        if r.dimensions() == &good[..] && r.values().iter().zip(a.values()).all(|(x, y)| x.to_bits() == y.to_bits()) && r.values().len() == a.values().len() {
+                            Outcome::pass(true, k.finish(), classes)
+                        } else {
+                            Outcome::fail("value-mismatch", "value-mismatch:reshape:after-refusals".into(), format!("reshape of dims {:?} to {:?} after two refused reshapes gave dims {:?} values {:?}", leaf.dims, good, r.dimensions(), &r.values()[..r.values().len().min(8)]), k.finish(), classes)
+                        }
+                    }
+                }
+            }
             ScalarCase::SumAll(l) => {
                 let mut k = KeyHasher::new("sumall");
                 k.us(&l.dims);
@@ -253,6 +280,23 @@ pub fn campaigns(ctx: &Ctx) -> Stats {
             1 => ScalarCase::SumZero(l(VKind::Signed)),
             _ => ScalarCase::SoftmaxRows(l(VKind::Small)),
         })
+    }));
+    // the same array asked twice for a reshape that must be refused, then for a valid one
+    st.merge(ctx.run_indexed("reshape-refused-twice", ns * 3, None, |i| {
+        let s = &shapes[(i / 3) as usize];
+        let n = numel(s);
+        let bad = match i % 3 {
+            0 => vec![n + 1],
+            1 => vec![n, 2],
+            _ => {
+                let mut b = s.clone();
+                b[0] += 1;
+                b
+            }
+        };
+        let goods = shapes_with_numel(n);
+        let good = goods[(i as usize) % goods.len()].clone();
+        Some(Case7::S(ScalarCase::ReshapeRefusedTwice { leaf: LeafSpec { dims: s.clone(), vals: iota(n, 1.0, 1.0), tracked: i % 2 == 1 }, bad, good }))
     }));
     // softmax / exp / sigmoid far from zero: rows at very different offsets (all finite in f32 and f64)
     st.merge(ctx.run_indexed("wide-range-rows", 6 * 5 * 5 * 3, None, |i| {
